@@ -20,7 +20,9 @@ inductive Piece where
   | redir (rd : Redir)
   | cond (c : Cond)
   | arith (a : Arith)
-  | text (t : String)
+  /-- `ps`: bash performs process substitution in this kind of text (parameter-expansion arguments, case patterns,
+      `[[ ]]` operands) – not in arithmetic, not in here-documents -/
+  | text (ps : Bool) (t : String)
 
 /-- one evaluation step; `r` = remote context (a leading literal `cd` is not tracked there) -/
 inductive Child (resolveCd : String → String → String) (walked : List String) (r : Bool) :
@@ -42,9 +44,9 @@ inductive Child (resolveCd : String → String → String) (walked : List String
   | forWord {v ws b rs cwd wd} : wd ∈ ws → Child resolveCd walked r (.node (.forN v ws b rs), cwd) (.word wd, cwd)
   | forBody {v ws b rs cwd} : Child resolveCd walked r (.node (.forN v ws b rs), cwd) (.node b, cwd)
   | forRedir {v ws b rs cwd rd} : rd ∈ rs → Child resolveCd walked r (.node (.forN v ws b rs), cwd) (.redir rd, cwd)
-  | forArithInit {i c s b rs cwd} : Child resolveCd walked r (.node (.forArith i c s b rs), cwd) (.text i, cwd)
-  | forArithCond {i c s b rs cwd} : Child resolveCd walked r (.node (.forArith i c s b rs), cwd) (.text c, cwd)
-  | forArithIncr {i c s b rs cwd} : Child resolveCd walked r (.node (.forArith i c s b rs), cwd) (.text s, cwd)
+  | forArithInit {i c s b rs cwd} : Child resolveCd walked r (.node (.forArith i c s b rs), cwd) (.text false i, cwd)
+  | forArithCond {i c s b rs cwd} : Child resolveCd walked r (.node (.forArith i c s b rs), cwd) (.text false c, cwd)
+  | forArithIncr {i c s b rs cwd} : Child resolveCd walked r (.node (.forArith i c s b rs), cwd) (.text false s, cwd)
   | forArithBody {i c s b rs cwd} : Child resolveCd walked r (.node (.forArith i c s b rs), cwd) (.node b, cwd)
   | forArithRedir {i c s b rs cwd rd} : rd ∈ rs →
       Child resolveCd walked r (.node (.forArith i c s b rs), cwd) (.redir rd, cwd)
@@ -53,7 +55,7 @@ inductive Child (resolveCd : String → String → String) (walked : List String
   | selectRedir {v ws b rs cwd rd} : rd ∈ rs → Child resolveCd walked r (.node (.selectN v ws b rs), cwd) (.redir rd, cwd)
   | caseWord {wd pats rs cwd} : Child resolveCd walked r (.node (.caseN (some wd) pats rs), cwd) (.word wd, cwd)
   | casePattern {wd pats rs cwd pat body} : CasePat.mk pat body ∈ pats →
-      Child resolveCd walked r (.node (.caseN wd pats rs), cwd) (.text pat, cwd)
+      Child resolveCd walked r (.node (.caseN wd pats rs), cwd) (.text true pat, cwd)
   | caseBody {wd pats rs cwd pat body} : CasePat.mk pat (some body) ∈ pats →
       Child resolveCd walked r (.node (.caseN wd pats rs), cwd) (.node body, cwd)
   | caseRedir {wd pats rs cwd rd} : rd ∈ rs → Child resolveCd walked r (.node (.caseN wd pats rs), cwd) (.redir rd, cwd)
@@ -68,36 +70,36 @@ inductive Child (resolveCd : String → String → String) (walked : List String
   | coprocBody {p cwd} : Child resolveCd walked r (.node (.coproc p), cwd) (.node p, cwd)
   | condBody {c rs cwd} : Child resolveCd walked r (.node (.condExpr (some c) rs), cwd) (.cond c, cwd)
   | condRedir {c rs cwd rd} : rd ∈ rs → Child resolveCd walked r (.node (.condExpr c rs), cwd) (.redir rd, cwd)
-  | arithCmdText {e t rs cwd} : Child resolveCd walked r (.node (.arithCmd e (some t) rs), cwd) (.text t, cwd)
+  | arithCmdText {e t rs cwd} : Child resolveCd walked r (.node (.arithCmd e (some t) rs), cwd) (.text false t, cwd)
   | arithCmdTree {e rs cwd} : Child resolveCd walked r (.node (.arithCmd (some e) none rs), cwd) (.arith e, cwd)
   | arithCmdRedir {e t rs cwd rd} : rd ∈ rs → Child resolveCd walked r (.node (.arithCmd e t rs), cwd) (.redir rd, cwd)
   -- words and their parts
   | wordPart {v ps cwd p} : p ∈ ps → Child resolveCd walked r (.word (.mk v ps), cwd) (.part (.mk v ps) p, cwd)
   | cmdsub {wd n cwd} : Child resolveCd walked r (.part wd (.cmdsub n), cwd) (.node n, cwd)
   | procsub {wd d n cwd} : Child resolveCd walked r (.part wd (.procsub d n), cwd) (.node n, cwd)
-  | paramName {wd name op arg cwd} : Child resolveCd walked r (.part wd (.param name op arg), cwd) (.text name, cwd)
-  | paramArg {wd name op arg cwd} : Child resolveCd walked r (.part wd (.param name op (some arg)), cwd) (.text arg, cwd)
-  | paramLenName {wd name cwd} : Child resolveCd walked r (.part wd (.paramLen name), cwd) (.text name, cwd)
+  | paramName {wd name op arg cwd} : Child resolveCd walked r (.part wd (.param name op arg), cwd) (.text true name, cwd)
+  | paramArg {wd name op arg cwd} : Child resolveCd walked r (.part wd (.param name op (some arg)), cwd) (.text true arg, cwd)
+  | paramLenName {wd name cwd} : Child resolveCd walked r (.part wd (.paramLen name), cwd) (.text true name, cwd)
   | paramIndName {wd name op arg cwd} :
-      Child resolveCd walked r (.part wd (.paramIndirect name op arg), cwd) (.text name, cwd)
+      Child resolveCd walked r (.part wd (.paramIndirect name op arg), cwd) (.text true name, cwd)
   | paramIndArg {wd name op arg cwd} :
-      Child resolveCd walked r (.part wd (.paramIndirect name op (some arg)), cwd) (.text arg, cwd)
-  | arithText {wd e t cwd} : t ∈ arithTexts wd.value → Child resolveCd walked r (.part wd (.arith e), cwd) (.text t, cwd)
-  | arithOldText {wd e cwd} : Child resolveCd walked r (.part wd (.arithDeprecated e), cwd) (.text e, cwd)
+      Child resolveCd walked r (.part wd (.paramIndirect name op (some arg)), cwd) (.text true arg, cwd)
+  | arithText {wd e t cwd} : t ∈ arithTexts wd.value → Child resolveCd walked r (.part wd (.arith e), cwd) (.text false t, cwd)
+  | arithOldText {wd e cwd} : Child resolveCd walked r (.part wd (.arithDeprecated e), cwd) (.text false e, cwd)
   | arrayElem {wd elems cwd el} : el ∈ elems → Child resolveCd walked r (.part wd (.array elems), cwd) (.word el, cwd)
   -- redirections: the target word; an unquoted here-document body
   | redirTarget {op t cwd} : Child resolveCd walked r (.redir (.redirect op (some t)), cwd) (.word t, cwd)
-  | heredocBody {content cwd} : Child resolveCd walked r (.redir (.heredoc false content), cwd) (.text content, cwd)
+  | heredocBody {content cwd} : Child resolveCd walked r (.redir (.heredoc false content), cwd) (.text false content, cwd)
   -- [[ ]]
-  | unaryOperand {op v ps cwd} : ps ≠ [] → Child resolveCd walked r (.cond (.unary op (.mk v ps)), cwd) (.word (.mk v ps), cwd)
-  | unaryText {op v cwd} : Py.hasChar v '\'' = false →
-      Child resolveCd walked r (.cond (.unary op (.mk v [])), cwd) (.text v, cwd)
-  | binaryLeft {op v ps rt cwd} : ps ≠ [] → Child resolveCd walked r (.cond (.binary op (.mk v ps) rt), cwd) (.word (.mk v ps), cwd)
-  | binaryLeftText {op v rt cwd} : Py.hasChar v '\'' = false →
-      Child resolveCd walked r (.cond (.binary op (.mk v []) rt), cwd) (.text v, cwd)
-  | binaryRight {op v ps l cwd} : ps ≠ [] → Child resolveCd walked r (.cond (.binary op l (.mk v ps)), cwd) (.word (.mk v ps), cwd)
-  | binaryRightText {op v l cwd} : Py.hasChar v '\'' = false →
-      Child resolveCd walked r (.cond (.binary op l (.mk v [])), cwd) (.text v, cwd)
+  | unaryOperand {op v ps cwd} : Child resolveCd walked r (.cond (.unary op (.mk v ps)), cwd) (.word (.mk v ps), cwd)
+  | unaryText {op v ps cwd} : (ps = [] ∨ Py.hasChar v '\'' = true) →
+      Child resolveCd walked r (.cond (.unary op (.mk v ps)), cwd) (.text true v, cwd)
+  | binaryLeft {op v ps rt cwd} : Child resolveCd walked r (.cond (.binary op (.mk v ps) rt), cwd) (.word (.mk v ps), cwd)
+  | binaryLeftText {op v ps rt cwd} : (ps = [] ∨ Py.hasChar v '\'' = true) →
+      Child resolveCd walked r (.cond (.binary op (.mk v ps) rt), cwd) (.text true v, cwd)
+  | binaryRight {op v ps l cwd} : Child resolveCd walked r (.cond (.binary op l (.mk v ps)), cwd) (.word (.mk v ps), cwd)
+  | binaryRightText {op v ps l cwd} : (ps = [] ∨ Py.hasChar v '\'' = true ∨ op = "=~") →
+      Child resolveCd walked r (.cond (.binary op l (.mk v ps)), cwd) (.text true v, cwd)
   | andLeft {l rt cwd} : Child resolveCd walked r (.cond (.and l rt), cwd) (.cond l, cwd)
   | andRight {l rt cwd} : Child resolveCd walked r (.cond (.and l rt), cwd) (.cond rt, cwd)
   | orLeft {l rt cwd} : Child resolveCd walked r (.cond (.or l rt), cwd) (.cond l, cwd)
